@@ -1,0 +1,117 @@
+//go:build verif
+// +build verif
+
+// Protocol layer contracts (C11: one well-formed reply per command, none for noreply, nothing
+// left unflushed, request state reset between commands).
+//
+// ServerConn.ServeOnce is verified against assumed contracts of the parser (Request.Read), the
+// command interpreter (Request.Process) and the reply writer (Response.Write); replies are observed
+// through the ghost byte stream of the connection's bufio.Writer: streamLen = bytes written so
+// far, streamFlushed = length of the prefix handed to the connection by Flush.
+//
+// Scope: executions in which no callee panics (the deferred recover() is modelled as returning an
+// arbitrary value; what a panic inside Read/Process skips is NOT modelled), any timing (overdue()
+// is unconstrained), any storage client behaviour.
+
+package memcache
+
+import (
+	"bufio"
+	"io"
+)
+
+var _ = bufio.NewReader
+
+// ---------- ghost accessors (interpreted by govc) ----------
+
+func streamLen(w io.Writer) int     { return 0 }
+func streamFlushed(w io.Writer) int { return 0 }
+func ghostStream(w io.Writer) bool  { return true }
+func ghostFail() bool               { return true }
+func ghostClock() bool              { return true }
+func all(x interface{}) bool        { return true }
+func fresh(x interface{}) bool      { return true }
+
+// the command read last asked for no reply (set by Request.Read; Request.Clear resets NoReply
+// itself at the end of ServeOnce, so the postcondition of ServeOnce needs this copy)
+var ghostNoReply map[*Request]bool
+
+// ---------- verified ----------
+
+// the per-connection request object carries nothing over to the next command
+//@ func (req *Request) Clear
+//@   props C11
+//@   ints bv
+//@   modifies req.NoReply, req.Item
+//@   ensures !req.NoReply && req.Item == nil
+
+//@ func (c *ServerConn) Shutdown
+//@   props C11
+//@   ints bv
+//@   modifies c.closeAfterReply
+//@   ensures c.closeAfterReply
+
+// ---------- assumed ----------
+
+// the parser: consumes one command from the connection; remembers whether it asked for no reply
+//@ func (req *Request) Read
+//@   props C11
+//@   ints bv
+//@   assumed parser of one command line (+ value block); string splitting and number parsing are opaque to the verifier
+//@   requires ghostNoReply != nil
+//@   modifies all(req), ghostNoReply[req], ghostFail(), ghostClock()
+//@   ensures ghostNoReply[req] == (result0 == nil && req.NoReply)
+//@   ensures req.Item != nil ==> fresh(req.Item)
+
+// the interpreter: a response object (nil for quit); no reply is suppressed unless the command asked for it
+//@ func (req *Request) Process
+//@   props C11
+//@   ints bv
+//@   assumed command interpreter over an arbitrary storage client
+//@   ensures resp != nil ==> fresh(resp) && (resp.Noreply ==> req.NoReply)
+
+// the reply writer: a reply is at least one byte; nothing is written for noreply
+//@ func (resp *Response) Write
+//@   props C11
+//@   ints bv
+//@   assumed reply serialisation (fmt.Fprintf, map iteration)
+//@   modifies ghostStream(w), ghostFail()
+//@   ensures resp.Noreply ==> result0 == nil && streamLen(w) == old(streamLen(w)) && streamFlushed(w) == old(streamFlushed(w))
+//@   ensures !resp.Noreply && result0 == nil ==> streamLen(w) > old(streamLen(w)) && streamFlushed(w) == old(streamFlushed(w))
+
+//@ func (resp *Response) CleanBuffer
+//@   props C11
+//@   ints bv
+//@   assumed releases the items of a response (buffer accounting: C12)
+//@   modifies resp.Items
+
+//@ func (rl *ReqLimiter) Put
+//@   props C11
+//@   ints bv
+//@   assumed returns the request's token to the limiter (channel send)
+//@   modifies req.Working
+
+//@ func (req *Request) SetStat
+//@   props C11
+//@   ints bv
+//@   assumed statistics only
+
+//@ func (c *ServerConn) writeAccessLog
+//@   props C11
+//@   ints bv
+//@   assumed logging only
+
+// ---------- one command ----------
+
+// C11: when ServeOnce returns without error and the connection is to stay open, the command got its
+// reply - at least one byte was written unless the command asked for no reply - and every byte
+// written has been flushed to the connection; the request object is reset for the next command.
+//@ func (c *ServerConn) ServeOnce
+//@   props C11
+//@   ints bv
+//@   requires c.req != nil && c.rbuf != nil && c.wbuf != nil && storageClient != nil && stats != nil && ghostNoReply != nil && RL != nil && accessLogger != nil
+//@   requires streamFlushed(c.wbuf) == streamLen(c.wbuf) && !c.closeAfterReply
+//@   modifies *
+//@   ensures err == nil && !c.closeAfterReply ==> streamFlushed(c.wbuf) == streamLen(c.wbuf)
+//@   ensures err == nil && !c.closeAfterReply ==> streamLen(c.wbuf) > old(streamLen(c.wbuf)) || ghostNoReply[c.req]
+//@   ensures !c.req.NoReply && c.req.Item == nil
